@@ -246,6 +246,9 @@ def run(chk):
     from .common import RuleProxy
     c07.validate_sites(RuleProxy(chk, "R7"), classes=("BlockUploadStream",))
 
+    # ------------------------------------------------------------------ R9 buffered reads lose nothing (shared clause)
+    from . import shared as _shri
+    _shri.readinto_delivers_all(chk, "R9", "BlockUploadStream")
     # ------------------------------------------------------------------ R8 instances are independent (shared clause)
     from . import shared as _shared
     _shared.isolation(chk, "R8", rels=['canopen/sdo/client.py', 'canopen/sdo/base.py'])
